@@ -723,6 +723,9 @@ class DerivationSim(Simulator):
                     yield p
 
     # ----------------------------------------------------------------------- reporting
+    def secondary_backends(self, prop, tier):
+        return [("stub", 800, None)] if tier == "quick" else [("stub", None, 120)]
+
     def quick_runs(self, prop):
         return int(os.environ.get("VERIF_%s_RUNS" % prop, "3200"))
 
